@@ -359,3 +359,236 @@ def translate_functions(repo, relfile, specs, common, header_imports, out_path, 
             f.write(text)
     info["sha256_generated"] = hashlib.sha256(text.encode()).hexdigest()
     return info
+
+
+# ===========================================================================
+# class mode: methods -> Lib/PyImp.stmt terms
+# ===========================================================================
+
+def _cstr(s):
+    if not all(32 <= ord(c) < 127 and c != '"' for c in s):
+        raise ValueError("bad string for Coq literal: %r" % s)
+    return '"' + s + '"'
+
+
+class MethodTranslator:
+    def __init__(self, file, spec, argnames):
+        self.file, self.spec = file, spec
+        self.args = set(argnames)
+        self.locals = set()
+
+    def bad(self, node, what):
+        raise TranslatorUnsupported(self.file, getattr(node, "lineno", 0), what)
+
+    def is_collab_call(self, e):
+        """self.<collab>.m(...) -> (m, args) or None"""
+        if (isinstance(e, ast.Call) and isinstance(e.func, ast.Attribute)
+                and isinstance(e.func.value, ast.Attribute) and isinstance(e.func.value.value, ast.Name)
+                and e.func.value.value.id == "self" and e.func.value.attr == self.spec["collab"]):
+            args = list(e.args)
+            for kw in e.keywords:
+                if kw.arg is None:
+                    self.bad(e, "**kwargs")
+                args.append(kw.value)      # keyword arguments are passed in order after the positionals
+            return e.func.attr, args
+        return None
+
+    def exp(self, e):
+        txt = ast.unparse(e)
+        if txt in self.spec.get("exp_map", {}):
+            return self.spec["exp_map"][txt]
+        if isinstance(e, ast.Attribute) and isinstance(e.value, ast.Name) and e.value.id == "self":
+            if e.attr not in self.spec["fields"]:
+                self.bad(e, f"attribute self.{e.attr} is not a whitelisted field")
+            return f"(EField {_cstr(e.attr)})"
+        if isinstance(e, ast.Name):
+            if e.id in self.locals:
+                return f"(ELocal {_cstr(e.id)})"
+            if e.id in self.args:
+                return f"(EArg {_cstr(e.id)})"
+            self.bad(e, f"unknown name {e.id}")
+        if isinstance(e, ast.Constant):
+            v = e.value
+            if v is None:
+                return "ENone"
+            if isinstance(v, bool):
+                return f"(EBool {'true' if v else 'false'})"
+            if isinstance(v, int):
+                return f"(EInt ({v})%Z)"
+            if isinstance(v, str):
+                return f"(EStr {_cstr(v)})"
+            self.bad(e, f"constant {v!r}")
+        if isinstance(e, ast.Compare):
+            if len(e.ops) != 1:
+                self.bad(e, "chained comparison")
+            op, l, r = e.ops[0], e.left, e.comparators[0]
+            if isinstance(op, (ast.In, ast.NotIn)):
+                if not isinstance(r, (ast.Tuple, ast.List)):
+                    self.bad(e, "membership in a non-literal container")
+                c = "[" + "; ".join(self.exp(x) for x in r.elts) + "]"
+                return f"({'EIn' if isinstance(op, ast.In) else 'ENotIn'} {self.exp(l)} {c})"
+            if isinstance(op, (ast.Is, ast.IsNot)) and isinstance(r, ast.Constant) and r.value is None:
+                return f"({'EEq' if isinstance(op, ast.Is) else 'ENe'} {self.exp(l)} ENone)"
+            table = {ast.Eq: "EEq", ast.NotEq: "ENe", ast.Gt: "EGt", ast.GtE: "EGe"}
+            if type(op) in table:
+                return f"({table[type(op)]} {self.exp(l)} {self.exp(r)})"
+            if isinstance(op, ast.Lt):
+                return f"(EGt {self.exp(r)} {self.exp(l)})"
+            if isinstance(op, ast.LtE):
+                return f"(EGe {self.exp(r)} {self.exp(l)})"
+            self.bad(e, "comparison " + type(op).__name__)
+        if isinstance(e, ast.BoolOp):
+            name = "EAnd" if isinstance(e.op, ast.And) else "EOr"
+            out = self.exp(e.values[-1])
+            for v in reversed(e.values[:-1]):
+                out = f"({name} {self.exp(v)} {out})"
+            return out
+        if isinstance(e, ast.UnaryOp) and isinstance(e.op, ast.Not):
+            return f"(ENot {self.exp(e.operand)})"
+        self.bad(e, "expression " + txt[:60])
+
+    def test_exp(self, e):
+        return self.exp(e)
+
+    def value_exp(self, e):
+        # and/or/not evaluate to a truthiness bool in PyImp: only allowed in tests
+        for n in ast.walk(e):
+            if isinstance(n, ast.BoolOp):
+                self.bad(e, "and/or used as a value")
+        return self.exp(e)
+
+    def seq(self, stmts):
+        out = [self.stmt(s) for s in stmts]
+        out = [o for o in out if o is not None]
+        if not out:
+            return "SPass"
+        term = out[-1]
+        for o in reversed(out[:-1]):
+            term = f"(SSeq {o} {term})"
+        return term
+
+    def stmt(self, s):
+        txt = ast.unparse(s).strip()
+        if txt in self.spec.get("stmt_map", {}):
+            return self.spec["stmt_map"][txt]
+        if isinstance(s, ast.Expr):
+            if isinstance(s.value, ast.Constant) and isinstance(s.value.value, str):
+                return None
+            cc = self.is_collab_call(s.value)
+            if cc:
+                return f"(SCall {_cstr(cc[0])} [{'; '.join(self.value_exp(a) for a in cc[1])}])"
+            self.bad(s, "expression statement " + txt[:60])
+        if isinstance(s, ast.Pass):
+            return "SPass"
+        if isinstance(s, ast.Assign):
+            if len(s.targets) != 1:
+                self.bad(s, "multiple targets")
+            t = s.targets[0]
+            cc = self.is_collab_call(s.value)
+            if isinstance(t, ast.Attribute) and isinstance(t.value, ast.Name) and t.value.id == "self":
+                if t.attr not in self.spec["fields"]:
+                    self.bad(s, f"assignment to non-whitelisted field self.{t.attr}")
+                if cc:
+                    return f"(SFieldCall {_cstr(t.attr)} {_cstr(cc[0])} [{'; '.join(self.value_exp(a) for a in cc[1])}])"
+                return f"(SAssign {_cstr(t.attr)} {self.value_exp(s.value)})"
+            if isinstance(t, ast.Name):
+                if cc:
+                    self.locals.add(t.id)
+                    return f"(SLocalCall {_cstr(t.id)} {_cstr(cc[0])} [{'; '.join(self.value_exp(a) for a in cc[1])}])"
+                self.bad(s, "local assignment from a non-collaborator expression")
+            self.bad(s, "assignment target")
+        if isinstance(s, ast.AugAssign):
+            t = s.target
+            if not (isinstance(t, ast.Attribute) and isinstance(t.value, ast.Name) and t.value.id == "self"
+                    and t.attr in self.spec["fields"]):
+                self.bad(s, "augmented assignment target")
+            if not (isinstance(s.value, ast.Constant) and isinstance(s.value.value, int)):
+                self.bad(s, "augmented assignment by a non-constant")
+            if isinstance(s.op, ast.Add):
+                return f"(SAugAdd {_cstr(t.attr)} ({s.value.value})%Z)"
+            if isinstance(s.op, ast.Sub):
+                return f"(SAugSub {_cstr(t.attr)} ({s.value.value})%Z)"
+            self.bad(s, "augmented operator")
+        if isinstance(s, ast.Raise):
+            if s.cause is not None or s.exc is None:
+                self.bad(s, "raise form")
+            e = s.exc
+            if isinstance(e, ast.Call):
+                e = e.func
+            name = e.attr if isinstance(e, ast.Attribute) else (e.id if isinstance(e, ast.Name) else None)
+            if name is None or name not in self.spec["exceptions"]:
+                self.bad(s, f"raise of non-whitelisted exception {txt[:60]}")
+            return f"(SRaise {_cstr(name)})"
+        if isinstance(s, ast.Return):
+            if s.value is None:
+                return "(SReturn ENone)"
+            return f"(SReturn {self.value_exp(s.value)})"
+        if isinstance(s, ast.If):
+            c = self.test_exp(s.test)
+            saved = set(self.locals)
+            a = self.seq(s.body)
+            la = set(self.locals)
+            self.locals = set(saved)
+            b = self.seq(s.orelse) if s.orelse else "SPass"
+            lb = set(self.locals)
+            self.locals = la & lb
+            return f"(SIf {c}\n   {a}\n   {b})"
+        if isinstance(s, ast.Try):
+            if s.handlers or s.orelse or not s.finalbody:
+                self.bad(s, "try with except/else (only try/finally is modelled)")
+            return f"(STryFinally {self.seq(s.body)} {self.seq(s.finalbody)})"
+        self.bad(s, "statement " + type(s).__name__)
+
+
+def translate_class(repo, relfile, spec, out_path, header_imports):
+    """spec: dict(classname, collab, fields, exceptions, methods{name: [argnames]}, exp_map, stmt_map, prefix)."""
+    path = os.path.join(repo, relfile)
+    src = open(path).read()
+    tree = ast.parse(src)
+    info = {"files": [os.path.relpath(out_path, os.path.dirname(os.path.dirname(out_path)))], "functions": {},
+            "abstractions": {"exp_map": spec.get("exp_map", {}), "stmt_map": spec.get("stmt_map", {})}}
+    chunks = []
+    for mname, argnames in spec["methods"].items():
+        fn = find_function(tree, spec["classname"] + "." + mname)
+        if fn is None or not isinstance(fn, ast.FunctionDef):
+            raise TranslatorUnsupported(relfile, 0, f"method {spec['classname']}.{mname} not found")
+        a = fn.args
+        if a.vararg or a.kwarg or a.kwonlyargs or a.posonlyargs:
+            raise TranslatorUnsupported(relfile, fn.lineno, "star/keyword-only arguments")
+        params = [x.arg for x in a.args]
+        if params != ["self"] + list(argnames):
+            raise TranslatorUnsupported(relfile, fn.lineno, f"signature changed: {params}")
+        for d in a.defaults:
+            if not (isinstance(d, ast.Constant) and d.value is None):
+                raise TranslatorUnsupported(relfile, fn.lineno, "default other than None")
+        wrap = None
+        for dec in fn.decorator_list:
+            if (isinstance(dec, ast.Call) and isinstance(dec.func, ast.Name) and dec.func.id == "only_raises"
+                    and not dec.keywords):
+                names = []
+                for x in dec.args:
+                    nm = x.attr if isinstance(x, ast.Attribute) else (x.id if isinstance(x, ast.Name) else None)
+                    if nm is None:
+                        raise TranslatorUnsupported(relfile, fn.lineno, "only_raises argument")
+                    names.append(nm)
+                wrap = names
+            else:
+                raise TranslatorUnsupported(relfile, fn.lineno, "decorator " + ast.unparse(dec))
+        seg = ast.get_source_segment(src, fn)
+        sha = hashlib.sha256(seg.encode()).hexdigest()
+        info["functions"][f"{relfile}:{spec['classname']}.{mname}"] = sha
+        mt = MethodTranslator(relfile, spec, argnames)
+        body = mt.seq(fn.body)
+        if wrap is not None:
+            body = "(SOnlyRaises [" + "; ".join(_cstr(n) for n in wrap) + "] " + body + ")"
+        chunks.append(f"(* {relfile}:{spec['classname']}.{mname} line {fn.lineno} sha256 {sha} *)\n"
+                      f"Definition {spec['prefix']}_{mname} : stmt :=\n  {body}.\n")
+    text = ("(* GENERATED on every run by tools/py2coq.py (class mode) from /repo -- do not edit. *)\n"
+            + header_imports.strip() + "\n\n" + "\n".join(chunks))
+    os.makedirs(os.path.dirname(out_path), exist_ok=True)
+    old = open(out_path).read() if os.path.exists(out_path) else None
+    if old != text:
+        with open(out_path, "w") as f:
+            f.write(text)
+    info["sha256_generated"] = hashlib.sha256(text.encode()).hexdigest()
+    return info
